@@ -24,14 +24,21 @@ import logging
 
 # Seam (real time): cwl_utils kills its node process with a threading.Timer after 20 REAL seconds. On a loaded machine
 # an expression evaluation can exceed that; the failure would then depend on the wall clock and not replay. The limit is
-# lifted here; a genuinely endless evaluation is bounded by the run's wall-clock cap instead.
+# raised to 150 s here and a kill by that timer ends the run as UNDECIDED (like an exhausted wall-clock cap).
 import cwl_utils.sandboxjs as _sj
 
 if not getattr(_sj.NodeJSEngine.exec_js_process, "_sfsim", False):
     _orig_exec_js = _sj.NodeJSEngine.exec_js_process
 
     def _exec_js_process(self, js_text, timeout=None, **kw):
-        return _orig_exec_js(self, js_text, timeout=3600.0, **kw)
+        rc, out, err = _orig_exec_js(self, js_text, timeout=150.0, **kw)
+        if rc == -1:
+            # the node child was killed by the real-time timer: the machine, not the expression, was too slow;
+            # the run is undecided (same path as an exhausted wall-clock cap), never a failure of the code under test
+            from ..core import WallTimeout
+
+            raise WallTimeout()
+        return rc, out, err
 
     _exec_js_process._sfsim = True
     _sj.NodeJSEngine.exec_js_process = _exec_js_process
